@@ -1,1 +1,201 @@
-"""C20 driver (registered lazily)."""
+"""C20 driver: parse + correlate (+ markdown) a project that may contain damaged
+files, under a deterministic step budget, and dump the canonical tree of every
+file FORD accepted."""
+import os
+import sys
+
+from .drivers import register, origin
+
+
+class StepBudgetExceeded(BaseException):
+    pass
+
+
+CHILD_LISTS = ["modules", "submodules", "programs", "blockdata", "functions", "subroutines", "interfaces",
+               "absinterfaces", "types", "variables", "boundprocs", "modprocedures", "modfunctions",
+               "modsubroutines", "common", "namelists", "enums", "args", "finalprocs", "constructor"]
+
+
+def _s(x):
+    if x is None or isinstance(x, (int, float, bool)):
+        return x
+    if isinstance(x, str):
+        return x
+    if isinstance(x, (list, tuple)):
+        return [_s(i) for i in x]
+    if hasattr(x, "name") and hasattr(x, "obj"):
+        return origin(x)
+    return str(type(x).__name__)
+
+
+def dump_entity(e, seen, depth=0):
+    if id(e) in seen or depth > 12:
+        return {"ref": origin(e)}
+    seen.add(id(e))
+    d = {"cls": type(e).__name__, "name": getattr(e, "name", None)}
+    for a in ("obj", "permission", "vartype", "kind", "strlen", "dimension", "intent", "optional", "parameter",
+              "initial", "proctype", "generic", "abstract", "bindC", "deferred", "module", "mp", "visible"):
+        if hasattr(e, a):
+            v = getattr(e, a)
+            d[a] = _s(v)
+    if hasattr(e, "attribs"):
+        d["attribs"] = sorted(str(x) for x in (e.attribs or []))
+    doc = getattr(e, "doc", None)
+    if doc is None:
+        doc = getattr(e, "doc_list", None)
+    d["doc"] = doc if isinstance(doc, str) else [str(x) for x in (doc or [])]
+    meta = getattr(e, "meta", None)
+    if meta is not None:
+        d["meta"] = {k: _s(v) for k, v in sorted(vars(meta).items()) if v not in (None, [], {}, False)}
+    try:
+        d["ident"] = e.ident
+    except Exception:  # noqa: BLE001
+        d["ident"] = None
+    try:
+        d["url"] = e.get_url()
+    except Exception:  # noqa: BLE001
+        d["url"] = None
+    proto = getattr(e, "proto", None)
+    if proto:
+        d["proto"] = _s(proto[0])
+    ext = getattr(e, "extends", None)
+    if ext is not None:
+        d["extends"] = _s(ext)
+    if hasattr(e, "calls"):
+        d["calls"] = sorted(_s(c) if isinstance(c, str) else origin(c) for c in (e.calls or []))
+    if hasattr(e, "uses"):
+        d["uses"] = sorted(str(getattr(u, "name", u)).lower() for u in (e.uses or []))
+    for a in ("retvar", "procedure", "prototype"):
+        v = getattr(e, a, None)
+        if v is not None and not isinstance(v, str) and hasattr(v, "name"):
+            d[a] = dump_entity(v, seen, depth + 1)
+    for lst in CHILD_LISTS:
+        v = getattr(e, lst, None)
+        if isinstance(v, (list, tuple)) and v:
+            d[lst] = [dump_entity(c, seen, depth + 1) if hasattr(c, "name") and not isinstance(c, str) else _s(c)
+                      for c in v]
+    return d
+
+
+_CODES = []
+
+
+def _ford_code_objects():
+    if _CODES:
+        return _CODES
+    import types
+    import ford.reader
+    import ford.sourceform
+    import ford.fortran_project
+    import ford.fixed2free2
+    import ford.utils
+    seen = set()
+
+    def add(code):
+        if id(code) in seen:
+            return
+        seen.add(id(code))
+        _CODES.append(code)
+        for c in code.co_consts:
+            if isinstance(c, types.CodeType):
+                add(c)
+
+    for mod in (ford.reader, ford.sourceform, ford.fortran_project, ford.fixed2free2, ford.utils):
+        for obj in vars(mod).values():
+            if isinstance(obj, types.FunctionType) and obj.__module__ == mod.__name__:
+                add(obj.__code__)
+            elif isinstance(obj, type) and obj.__module__ == mod.__name__:
+                for m in vars(obj).values():
+                    f = getattr(m, "__func__", m)
+                    if isinstance(f, property):
+                        for g in (f.fget, f.fset, f.fdel):
+                            if g is not None:
+                                add(g.__code__)
+                    elif isinstance(f, types.FunctionType):
+                        add(f.__code__)
+    return _CODES
+
+
+def touch_idents_in_page_order(project):
+    """Documentation() creates pages -- and so assigns NameSelector numbers -- in this order."""
+    for lst in ("types", "absinterfaces", "procedures", "submodprocedures", "modules", "submodules",
+                "programs", "blockdata", "namelists"):
+        for item in getattr(project, lst, []):
+            item.ident
+    for f in project.allfiles:
+        f.ident
+
+
+@register("c20_project")
+def drv_c20(spec, S, variant):
+    import ford
+    budget = variant.get("step_budget")
+    steps = [0]
+    mon = getattr(sys, "monitoring", None)
+    tool = None
+    if mon is not None and budget is not None or variant.get("count_steps"):
+        tool = mon.PROFILER_ID
+        try:
+            mon.use_tool_id(tool, "fordsim-steps")
+        except ValueError:
+            pass
+
+        def on_line(code, line):
+            steps[0] += 1
+            if budget is not None and steps[0] > budget:
+                raise StepBudgetExceeded("step budget %d exceeded at %s:%d" % (budget, code.co_filename, line))
+        mon.register_callback(tool, mon.events.LINE, on_line)
+        # count line events in FORD's own reader/parser/project code only (that is where a
+        # non-terminating loop would spin); counting every line of markdown/pygments is 15x slower
+        for code in _ford_code_objects():
+            mon.set_local_events(tool, code, mon.events.LINE)
+    sandbox = S.sandbox
+    try:
+        sys.argv = list(spec["argv"])
+        proj_data, proj_docs = ford.initialize()
+        project = ford.fortran_project.Project(proj_data)
+        accepted = sorted(os.path.relpath(str(f.path), sandbox) for f in project.allfiles)
+        stage = "parse"
+        crash = None
+        try:
+            project.correlate()
+            stage = "correlate"
+            if variant.get("markdown", True):
+                from ford._markdown import MetaMarkdown
+                import copy
+                import pathlib
+                aliases = copy.copy(proj_data.alias)
+                md = MetaMarkdown(proj_data.md_base_dir, base_url=proj_data.project_url,
+                                  extensions=proj_data.md_extensions, aliases=aliases, project=project)
+                project.markdown(md)
+                stage = "markdown"
+            touch_idents_in_page_order(project)
+        except StepBudgetExceeded:
+            raise
+        except Exception as ex:  # noqa: BLE001 - whether the whole run dies is part of the observation
+            import traceback
+            crash = {"stage_reached": stage, "cls": type(ex).__name__, "msg": str(ex)[:500],
+                     "tb": traceback.format_exception(type(ex), ex, ex.__traceback__)[-4:]}
+    finally:
+        if tool is not None:
+            for code in _ford_code_objects():
+                mon.set_local_events(tool, code, 0)
+    out = {"accepted": accepted, "steps": steps[0], "crash": crash, "files": {}, "lists": {}}
+    if crash is None:
+        only = set(variant.get("dump_files") or [])
+        for f in project.allfiles:
+            rel = os.path.relpath(str(f.path), sandbox)
+            if only and rel not in only:
+                continue
+            out["files"][rel] = dump_entity(f, set())
+        for lst in ("modules", "submodules", "programs", "procedures", "types", "absinterfaces", "blockdata",
+                    "namelists", "submodprocedures", "extra_files"):
+            items = []
+            for e in getattr(project, lst, []):
+                fn = getattr(e, "filename", None) or getattr(e, "path", None)
+                rel = os.path.relpath(str(fn), sandbox) if fn else None
+                if only and rel not in only:
+                    continue
+                items.append([str(getattr(e, "name", "")).lower(), getattr(e, "ident", None), rel])
+            out["lists"][lst] = items
+    return out
